@@ -13,7 +13,7 @@ def _build(name):
         e.prop = 'C02'
         e.oracles = ('decoder',)
         e.weights = dict(append=20, iterappend=12, setitem=12, truncate=14, mode=3, reopen=6,
-                         append_bad=3, truncate_bad=2, meta=8, recreate=8, iterappend_fail=6, copycheck=3)
+                         append_bad=3, truncate_bad=2, meta=8, recreate=8, iterappend_fail=6, copycheck=3, ctx=6, iterbreak=3)
         return e
     from .engines import raggedhist as RH
     if name == 'C04':
@@ -61,7 +61,7 @@ def _build(name):
         a = AH.ArrayHistory()
         a.oracles = ('ro', 'model', 'fresh')
         a.weights = dict(append=14, iterappend=8, setitem=14, truncate=10, mode=14, reopen=10,
-                         append_bad=2, truncate_bad=0, meta=22, recreate=0, delete=4, iterappend_fail=2)
+                         append_bad=2, truncate_bad=0, meta=22, recreate=0, delete=4, iterappend_fail=2, iterbreak=6, metamode=5)
         a.reopen_modes = ('r', 'default', 'default', 'r+')
         a.create_r_p = 0.5
         r = RH.RaggedHistory()
